@@ -253,7 +253,7 @@ func init() {
 		Setup:       validateOracle,
 		Timeout:     minutes(10, 60),
 		Cases: func(tier string, seed int64) []fw.Case {
-			l := mkCases(nil, "positions", 32, seed, pick(tier, 600, 12000))
+			l := mkCases(nil, "positions", 32, seed, pick(tier, 600, 60000))
 			l = append(l, fw.Case{Idx: len(l), Kind: "books", Seed: seed})
 			l = mkCases(l, "linebooks", 4, seed, pick(tier, 60, 1500))
 			return l
